@@ -275,31 +275,47 @@ def o_triangle(inp):
     return None
 
 
+def _coincident(p, q):
+    """q is a non-zero real multiple of p (same rotation), decided exactly on the given floats where possible"""
+    pn, qn = cm.unit(p), cm.unit(q)
+    return min(np.max(np.abs(pn - qn)), np.max(np.abs(pn + qn))) <= 4e-16
+
+
 def o_rows(inp):
-    """N-row inputs: every row equals the single call on that row (quaternion metrics and chordal)"""
+    """N-row inputs (quaternion metrics and chordal): finite output of shape (N,), every row equals the closed form of that row,
+    coincident rows (identical / negated / scaled copies) give 0 and all other rows a positive value"""
     M = _M()
     Pn, Qn = np.array(inp['P'], float), np.array(inp['Q'], float)
     form = inp.get('form', 'float64')
+    sfx = '' if form == 'float64' else f'-{form}'
     N = Pn.shape[0]
-    for k in QM:
+    Pu, Qu = np.array([cm.unit(x) for x in Pn]), np.array([cm.unit(x) for x in Qn])
+    ts = [0.0 if _coincident(Pn[i], Qn[i]) else rel_angle(Pu[i], Qu[i]) for i in range(N)]
+    A = np.array([cm.Rspec(x) for x in Pu]); B = np.array([cm.Rspec(x) for x in Qu])
+    mform = form if form != 'int-list' else 'float64'
+    for k in QM + ('chordal',):
+        x, y, f = (Pn, Qn, form) if k in QM else (A, B, mform)
         try:
-            got = np.asarray(getattr(M, k)(_cast(Pn, form), _cast(Qn, form)), float)
+            got = np.asarray(getattr(M, k)(_cast(x, f), _cast(y, f)), float)
         except Exception as e:
-            raise MetricRaises(f"{k}/rows-raises-{type(e).__name__}" + ('' if form == 'float64' else f'-{form}'))
+            raise MetricRaises(f"{k}/rows-raises-{type(e).__name__}{sfx}")
         if got.shape != (N,):
             return {'tag': f'{k}/rows-shape-N{N}', 'observed': list(got.shape), 'expected': [N]}
+        if not np.all(np.isfinite(got)):
+            return {'tag': f'{k}/rows-nonfinite', 'observed': got.tolist(), 'expected': 'finite', 'note': f'N={N}, rows {np.where(~np.isfinite(got))[0].tolist()}'}
+        if np.any(got < -1e-12):          # 1 - |p.q| of a coincident row is -2e-16 by rounding: noise, not a violation
+            return {'tag': f'{k}/rows-negative', 'observed': got.tolist(), 'expected': '>= 0'}
+        tol = TOL[k] * 10
         for i in range(N):
-            e = closed(rel_angle(Pn[i], Qn[i]))[k]
-            if not abs(got[i] - e) <= TOL[k] * 10:
-                return {'tag': f'{k}/rows-N{N}' + ('' if form == 'float64' else f'-{form}'), 'observed': got.tolist(), 'expected': e, 'note': f'row {i}'}
-    A = np.array([cm.Rspec(x) for x in Pn]); B = np.array([cm.Rspec(x) for x in Qn])
-    got = np.asarray(M.chordal(_cast(A, form if form != 'int-list' else 'float64'), _cast(B, form if form != 'int-list' else 'float64')), float)
-    if got.shape != (N,):
-        return {'tag': f'chordal/rows-shape-N{N}', 'observed': list(got.shape), 'expected': [N]}
-    for i in range(N):
-        e = closed(rel_angle(Pn[i], Qn[i]))['chordal']
-        if not abs(got[i] - e) <= 1e-9:
-            return {'tag': f'chordal/rows-N{N}', 'observed': got.tolist(), 'expected': e, 'note': f'row {i}'}
+            e = closed(ts[i])[k]
+            if ts[i] == 0.0:
+                if not got[i] <= (1e-7 if k in ('qcip', 'qad') else 1e-12):
+                    return {'tag': f'{k}/rows-nonzero-at-coincide', 'observed': got.tolist(), 'expected': 0.0, 'note': f'row {i}'}
+                continue
+            if not abs(got[i] - e) <= tol:
+                return {'tag': f'{k}/rows-N{N}{sfx}', 'observed': got.tolist(), 'expected': e, 'note': f'row {i}, t={ts[i]!r}'}
+            if ts[i] >= 1e-4 and not got[i] > 0:
+                return {'tag': f'{k}/rows-zero-in-range', 'observed': got.tolist(), 'expected': e, 'note': f'row {i}'}
     return None
 
 
@@ -348,10 +364,36 @@ def search(ctx, scale):
             Pn = np.array([s[1] for s in sel]); Qn = np.array([s[2] for s in sel])
             inp = {'P': Pn.tolist(), 'Q': Qn.tolist()}
             ctx.check('rows', inp, _call(o_rows, inp), nontrivial_key=(N,) + key(Pn, Qn))
+        # batches that mix generic rows with coincident rows (identical, negated, scaled copies) and exact half-turns
+        kinds = ('same', 'generic', 'neg', 'scaled', 'half-turn', 'neg-scaled', 'same')
+        for rep in range(4 * scale):
+            rows = []
+            for i in range(N):
+                kind = kinds[(i + rep) % len(kinds)]
+                pp = cm.rand_unit_quat(rng)
+                if kind == 'generic':
+                    _, pp, qq = prs[int(rng.integers(0, len(prs)))]
+                elif kind == 'same':
+                    qq = pp.copy()
+                elif kind == 'neg':
+                    qq = -pp
+                elif kind == 'scaled':
+                    qq = pp * float(rng.choice([2.0, 0.5, 3.0, 1e-3, 7.0]))
+                elif kind == 'neg-scaled':
+                    qq = pp * float(rng.choice([-2.0, -0.25, -5.0]))
+                else:
+                    pp, qq = (np.array(v, float) for v in EXACT[int(rng.integers(0, 3))]) if i % 2 else (pp, cm.unit(cm.qmul(pp, cm.axang_q(rng.standard_normal(3), math.pi))))
+                rows.append((pp, qq))
+            inp = {'P': [r[0].tolist() for r in rows], 'Q': [r[1].tolist() for r in rows]}
+            ctx.check('rows', inp, _call(o_rows, inp), nontrivial_key=(N, 'mixed', rep))
         ex = [EXACT[j % len(EXACT)] for j in range(N)]
         for form in ('int', 'list', 'float32'):
             rows = [e for e in ex if all((float(v) == int(v)) if form == 'int' else (float(np.float32(v)) == float(v)) for v in e[0] + e[1])] or [EXACT[0]]
             rows = (rows * N)[:N]
             inp = {'P': [list(map(float, e[0])) for e in rows], 'Q': [list(map(float, e[1])) for e in rows], 'form': form}
             ctx.check('rows', inp, _call(o_rows, inp), nontrivial_key=(N, form))
+    # one larger batch of coincident rows only (rounding pushes 2(q1.q2)^2 - 1 above 1 on about 40 % of random versors)
+    pc = [cm.rand_unit_quat(rng) for _ in range(24)]
+    inp = {'P': [x.tolist() for x in pc], 'Q': [(x * c).tolist() for x, c in zip(pc, [1.0, -1.0, 2.0, -0.5] * 6)]}
+    ctx.check('rows', inp, _call(o_rows, inp), nontrivial_key=(24, 'coincident'))
     ctx.samples.append({'kind': 'search', 'oracle': 'pair', 'input': {'p': prs[4][1].tolist(), 'q': prs[4][2].tolist(), 'r': [0.5, 0.5, -0.5, 0.5]}})
